@@ -11,10 +11,12 @@
 EXTENDS SimCore, Json, IOUtils
 Data   == JsonDeserialize(IOEnv.TRACE_FILE)
 Traces == Data.traces
-VARIABLES tid, l, m, prevC, sn, sf, fstat, verdict
-vars == <<tid, l, m, prevC, sn, sf, fstat, verdict>>
+VARIABLES tid, l, m, prevC, sn, sf, fstat, verdict,
+          pre, wf, wlo, whi, wpx     \* the antecedent of C12 incl. its quantifier, as in SimEquiv.Feed (classification only)
+vars == <<tid, l, m, prevC, sn, sf, fstat, verdict, pre, wf, wlo, whi, wpx>>
 Hist(t) == Traces[t].hist
 Init == /\ tid \in 1..Len(Traces) /\ l = 1 /\ m = 0 /\ prevC = 0 /\ sn = Side0 /\ sf = Side0 /\ fstat = "run" /\ verdict = "ok"
+        /\ pre = "ok" /\ wf = 0 /\ wlo = 0 /\ whi = 0 /\ wpx = {}
 
 Step ==
   /\ l <= Len(Hist(tid))
@@ -25,9 +27,21 @@ Step ==
           /\ IF Len(e.raw) < Traces[tid].hdr.chunk THEN fstat' = "ValueError" /\ sf' = sf
              ELSE fstat' = fstat /\ sf' = (IF fstat = "run" THEN ChunkF(sf, e.raw, prevC, m) ELSE sf)
           /\ m' = m + Len(e.raw) /\ prevC' = e.raw[Len(e.raw)].c
+          /\ LET n2  == MinutesN(sn, e.raw, prevC, 1, m)
+                 new == NewFills(sn.log, n2.log)
+                 st  == IF prevC = 0 THEN e.raw[1].o ELSE prevC
+                 lo  == Min2(IF wlo = 0 THEN st ELSE wlo, MinL(e.raw))
+                 hi  == Max2(IF whi = 0 THEN st ELSE whi, MaxH(e.raw))
+                 px  == wpx \cup RestingPx(sn.ords) \cup RestingPx(n2.ords) \cup FilledPx(new)
+                 k   == wf + RestingFills(new)
+             IN /\ wf' = k /\ wlo' = lo /\ whi' = hi /\ wpx' = px
+                /\ pre' = IF pre # "ok" THEN pre ELSE IF k > 1 THEN "two-fills"
+                          ELSE IF Cardinality({p \in px : lo <= p /\ p <= hi}) > 1 THEN "spacing"
+                          ELSE IF Len(e.raw) < Traces[tid].hdr.chunk THEN "ragged" ELSE "ok"
      ELSE /\ sn' = Decide(sn, e.row, m)
           /\ sf' = (IF fstat = "run" THEN Decide(sf, e.row, m) ELSE sf)
-          /\ UNCHANGED <<m, prevC, fstat>>
+          /\ wf' = 0 /\ wlo' = 0 /\ whi' = 0 /\ wpx' = {}
+          /\ UNCHANGED <<m, prevC, fstat, pre>>
   /\ l' = l + 1 /\ UNCHANGED <<tid, verdict>>
 
 FirstDiff(x, y) == CHOOSE j \in 1..Len(x) : x[j] # y[j] /\ \A q \in 1..(j - 1) : x[q] = y[q]
@@ -52,10 +66,12 @@ Judge ==
      ELSE IF CmpLog("fast", tf.log, rf.fills) # "ok" THEN CmpLog("fast", tf.log, rf.fills)
      ELSE IF tf.bal # rf.bal THEN "fast:balance"
      ELSE "ok"
-Final == /\ l = Len(Hist(tid)) + 1 /\ verdict' = Judge /\ l' = l + 1 /\ UNCHANGED <<tid, m, prevC, sn, sf, fstat>>
+Final == /\ l = Len(Hist(tid)) + 1 /\ verdict' = Judge /\ l' = l + 1 /\ UNCHANGED <<tid, m, prevC, sn, sf, fstat, pre, wf, wlo, whi, wpx>>
 Next == verdict = "ok" /\ (Step \/ Final)
 Spec == Init /\ [][Next]_vars
 Finished == l = Len(Hist(tid)) + 2
-\* third element: did the model's two sides agree on this scenario (coverage only)
-Report == Finished => PrintT(<<"VERDICT", Traces[tid].id, IF Terminate(sn, m).log = (IF fstat = "run" THEN Terminate(sf, m).log ELSE <<>>) THEN 1 ELSE 0, verdict>>)
+\* extra elements (classification, not verdicts): is the scenario inside the antecedent + quantifier of C12, and does the
+\* model say that the two simulators agree on it
+Agree == fstat = "run" /\ Terminate(sn, m).log = Terminate(sf, m).log
+Report == Finished => PrintT(<<"VERDICT", Traces[tid].id, pre, IF Agree THEN 1 ELSE 0, verdict>>)
 =============================================================================
